@@ -1059,7 +1059,7 @@ func (r *stateResolverV2) getPowerLevelFromAuthEvents(event PDU) int64 {
 		}
 
 		// Ignore the auth event if it isn't a power level event.
-		if authEvent.Type() != spec.MRoomPowerLevels || *authEvent.StateKey() != "" {
+		if authEvent.Type() != spec.MRoomPowerLevels || !authEvent.StateKeyEquals("") {
 			continue
 		}
 
